@@ -11,6 +11,7 @@ import (
 	"bufio"
 	"bytes"
 	"context"
+	"crypto/sha1"
 	"encoding/binary"
 	"encoding/hex"
 	"flag"
@@ -84,7 +85,7 @@ func lookalike(r *hx.Rng, site int) []byte {
 	}
 }
 
-func genOps(r *hx.Rng, site int, n int) []op {
+func genOps(r *hx.Rng, site int, n int, big bool) []op {
 	p := strings.ToLower(siteName[site]) + ":"
 	var ops []op
 	cnt := 0
@@ -128,6 +129,15 @@ func genOps(r *hx.Rng, site int, n int) []op {
 		default:
 			return [][]byte{b("SET"), append(k, 's'), val()} // upper-case name
 		}
+	}
+	if big {
+		// one very large transaction (a bulk loader, the effects of a script): thousands of commands between MULTI and EXEC
+		o := op{txn: true}
+		m := 4090 + r.Intn(600)
+		for j := 0; j < m; j++ {
+			o.cmds = append(o.cmds, [][]byte{b("rpush"), b(p + "bigl"), b(fmt.Sprintf("e%d", j))})
+		}
+		ops = append(ops, o)
 	}
 	for i := 0; i < n; i++ {
 		if r.Chance(35) {
@@ -270,6 +280,36 @@ func canon(v *fakeredis.Value) string {
 		}
 	}
 	return fmt.Sprintf("%s[%s]", v.Type, strings.Join(parts, ","))
+}
+
+// compact replaces every run of more than 64 consecutive business commands by one entry that names the run by its digest and
+// length (the monitor compares units as sequences of strings; a transaction of thousands of commands is one string then)
+func compact(kinds []string, strs []string) ([]string, []string) {
+	var ok, os []string
+	for i := 0; i < len(kinds); {
+		j := i
+		for j < len(kinds) && kinds[j] == "biz" {
+			j++
+		}
+		if j-i > 64 {
+			h := sha1.New()
+			for _, x := range strs[i:j] {
+				h.Write([]byte(x))
+				h.Write([]byte{0})
+			}
+			ok = append(ok, "biz")
+			os = append(os, fmt.Sprintf("digest:%x:%d", h.Sum(nil), j-i))
+			i = j
+			continue
+		}
+		if j == i {
+			j = i + 1
+		}
+		ok = append(ok, kinds[i:j]...)
+		os = append(os, strs[i:j]...)
+		i = j
+	}
+	return ok, os
 }
 
 func cmdStr(cm [][]byte) string {
@@ -670,7 +710,12 @@ func runScenario(sc *scenario, tr *hx.Trace) (units int) {
 		"restartNote": links[0].restartNote + links[1].restartNote})
 	for i := 0; i < 2; i++ {
 		for _, u := range clientUnits[i] {
-			tr.Emit(map[string]interface{}{"ev": "Client", "site": i, "cmds": u.cmds, "txn": u.txn})
+			ck := make([]string, len(u.cmds))
+			for q := range ck {
+				ck[q] = "biz"
+			}
+			_, cc := compact(ck, u.cmds)
+			tr.Emit(map[string]interface{}{"ev": "Client", "site": i, "cmds": cc, "txn": u.txn})
 			units++
 		}
 	}
@@ -744,6 +789,10 @@ func runScenario(sc *scenario, tr *hx.Trace) (units int) {
 							}
 						}
 					}
+				}
+				kinds, strs = compact(kinds, strs)
+				if len(keys) > 16 {
+					keys = keys[:16]
 				}
 				tr.Emit(map[string]interface{}{"ev": "Applied", "site": i, "inExec": e.Blk > 0, "kinds": kinds, "cmds": strs, "keys": keys, "dataSite": dataSite})
 			}
@@ -832,8 +881,12 @@ func main() {
 		if r.Chance(30) {
 			sc.restart = r.Intn(2)
 		}
+		bigSite := -1
+		if s == 0 || r.Chance(3) {
+			bigSite = r.Intn(2)
+		}
 		for i := 0; i < 2; i++ {
-			sc.ops[i] = genOps(r, i, r.Intn(*maxOps+1))
+			sc.ops[i] = genOps(r, i, r.Intn(*maxOps+1), bigSite == i)
 			if sc.snapshot {
 				sc.data[i] = genData(r, i)
 			}
